@@ -41,7 +41,7 @@ pub fn child_main(path: &str, perm: u64) {
     for (n, t) in &notes {
         state.insert(n.clone(), t.clone());
     }
-    let texts: BTreeMap<String, String> = notes.iter().map(|(n, t)| (Key::from_file_name(n).to_string(), t.clone())).collect();
+    let texts: BTreeMap<String, String> = notes.iter().map(|(n, t)| (Key::name(n).to_string(), t.clone())).collect();
     let r = std::panic::catch_unwind(std::panic::AssertUnwindSafe(|| {
         let db = Database::new(state.clone(), true, options.clone());
         let dump = idfree(&db, &texts);
@@ -94,7 +94,7 @@ pub fn execute(v: &Value) -> String {
     let state: HashMap<String, String> = sorted.iter().cloned().collect();
     let tables = match std::panic::catch_unwind(std::panic::AssertUnwindSafe(|| Graph::import(&state, options.clone()))) {
         Ok(g) => sorted.iter().map(|(n, _)| {
-            let k = Key::from_file_name(n);
+            let k = Key::name(n);
             gpair(&gstr(&k.to_string()), &glist(&tables_of(&g, &k, &options).iter().map(|t| gstr(t)).collect::<Vec<_>>()))
         }).collect::<Vec<_>>(),
         Err(_) => vec![],
